@@ -8,7 +8,8 @@ Decided (structural):
         nothing reads a clock, an RNG, or formats a pointer address.
  R2 K6  every field survives serde: for each struct reachable from ModuleV0 the derived
         Serialize writes as many fields as the struct declares (a skipped field would be lost on
-        the round trip).
+        the round trip), and any field the serializer may omit (skip_serializing_if) is
+        defaulted, not required, by the derived Deserialize of the same struct.
  R3 K6  Machine::from_module consumes every field of ModuleV0: each ModuleV0 field flows into the
         Machine field of the same name (field coverage of the Machine aggregate).
 Not decided: equality of execution results after a round trip (value-level)."""
@@ -107,6 +108,28 @@ def run(F, rep, tier):
                   "derived Serialize for %s writes %d of %d fields" % (p.split("::")[-1], len(fields) if not nt else 1, nf),
                   "derived Serialize for %s writes %d of %d fields (a field is skipped and would not survive a round trip)" % (p, len(fields), nf), f.site())
     rep.floor("derived Serialize impls examined", n, 8)
+    # R2b a conditionally skipped field must be optional on the way back
+    vis = {}
+    for g in F.fns:
+        if g.derived and g.name == "visit_map" and g.trait and g.trait.endswith("de::Visitor"):
+            built = [st.rv[1].get("adt") for st in g.stmts() if st.rv_kind() == "agg" and st.rv[1].get("k") == "adt" and st.rv[1].get("adt") in adts]
+            req = {str(c.args[0].const.get("dbg")).strip('"') for c in g.calls if c.name == "missing_field" and c.args and c.args[0].const is not None}
+            for b in set(built):
+                vis[b] = (g, req)
+    nskip = 0
+    for p, a in sorted(adts.items()):
+        sers = [f for f in F.fns if f.name == "serialize" and f.self_adt == p and f.trait and f.trait.endswith("ser::Serialize") and f.exp]
+        for f in sers[:1]:
+            skipped = {str(c.args[-1].const.get("dbg")).strip('"') for c in f.calls if c.name == "skip_field" and c.args and c.args[-1].const is not None}
+            if not skipped:
+                continue
+            nskip += len(skipped)
+            g, req = vis.get(p, (None, set()))
+            bad = sorted(skipped & req)
+            rep.check(g is not None and not bad, "serde|%s|skipped-fields-are-optional" % p.split("::")[-1], "K5 sibling agreement",
+                      "every field the derived Serialize may omit (%s) is defaulted by the derived Deserialize" % sorted(skipped),
+                      "derived Serialize for %s may omit %s, but the derived Deserialize reports missing_field for %s: such a value does not survive a round trip" % (p, sorted(skipped), bad or "(no visit_map found)"),
+                      f.site())
     # R3
     fm = F.fn("aranya_policy_vm::machine::Machine::from_module")
     mv0 = [x["name"] for x in F.adts["aranya_policy_module::module::ModuleV0"]["variants"][0]["fields"]]
